@@ -60,6 +60,20 @@ func DKGWrap(backend string, n, t, msgLen int, hook SendHook, wrap func(id uint1
 			inst[id] = wrap(id, inst[id])
 		}
 	}
+	return DKGOn(inst, parties, t, hook, timeout)
+}
+
+// Instances creates fresh instances for parties 1..n (for key generations that re-use objects).
+func Instances(backend string, n, msgLen int) map[uint16]tss.KeyGenerator {
+	inst := map[uint16]tss.KeyGenerator{}
+	for _, id := range IDs(n) {
+		inst[id] = NewKG(backend, id, msgLen)
+	}
+	return inst
+}
+
+// DKGOn runs Init + KeyGen on the given instances (which may have been used before).
+func DKGOn(inst map[uint16]tss.KeyGenerator, parties []uint16, t int, hook SendHook, timeout time.Duration) (map[uint16][]byte, map[uint16]error) {
 	for _, id := range parties {
 		id := id
 		inst[id].Init(parties, t, func(msg []byte, bc bool, to uint16) {
